@@ -116,6 +116,12 @@ def event(e):
                                             start_time=e['start_time'],
                                             end_time=e.get('end_time') if e.get('end_time') is not None else np.inf,
                                             step_size=e['step_size'])
+    if t == 'ExponentialRateChanges':
+        conv = lambda d: {(mkey(k) if '>' in k else k): v for k, v in d.items()} if isinstance(d, dict) else d
+        return pg.ExponentialRateChanges(initial_rate=conv(e['initial_rate']), growth_rate=conv(e['growth_rate']),
+                                         start_time=conv(e['start_time']),
+                                         end_time=e.get('end_time') if e.get('end_time') is not None else np.inf,
+                                         step_size=e['step_size'])
     raise ValueError(t)
 
 
